@@ -59,7 +59,7 @@ func r021(c *Ctx, rule string) {
 	}
 	nDrainReplaced := 0
 	for _, cs := range drains {
-		recv := cs.common().Args[0]
+		recv := resolve(cs.common().Args[0])
 		isNil, _ := nilKnowledge(cs.instr, sameAs(d.instErr))
 		if recv == d.replaced {
 			nDrainReplaced++
@@ -73,13 +73,16 @@ func r021(c *Ctx, rule string) {
 	c.ob(rule, "deploy/replaced-balancer-is-drained", d.fn.Pos(), nDrainReplaced >= 1, true, "the replaced balancer must be drained")
 	nDisposeReplaced := 0
 	for _, cs := range disposes {
-		recv := cs.common().Args[0]
+		recv := resolve(cs.common().Args[0])
+		if sameBalancer(recv, d.newLB) {
+			recv = lb
+		}
 		switch recv {
 		case d.replaced:
 			nDisposeReplaced++
 			drained := false
 			for _, dr := range drains {
-				if dr.common().Args[0] == d.replaced && dominates(dr.instr, cs.instr) {
+				if resolve(dr.common().Args[0]) == d.replaced && dominates(dr.instr, cs.instr) {
 					drained = true
 				}
 			}
